@@ -88,7 +88,10 @@ class Sim:
             a = ("search", "dc=" + mk, r.choice([0, 1, 2]), r.choice([0, 1, 2, 3]), r.choice([0, 10]), r.choice([0, 30]), r.random() < 0.3,
                  gv.g_filter(r, gv.SMALL) if r.random() < 0.4 else None, ("cn",), None)
         else:
-            a = ("extended", "1.2.3", mk.encode(), None)
+            # plain names, names the library's ExtendedOperations enum knows (the driver passes the member itself on odd
+            # calls), and other spellings of known names (ordinary names)
+            nm = r.choice(["1.2.3", "1.2.3", "1.3.6.1.4.1.1466.20037", "1.3.6.1.4.1.4203.1.11.3", gv.g_lookalike_oid(r)])
+            a = ("extended", nm, mk.encode(), None)
         return self.api("c", a)
 
     def server_call(self):
@@ -125,7 +128,7 @@ class Sim:
             else:
                 a = ("done", mid, r.choice([0, 4]), None, mk, None)
         else:
-            a = ("extended_response", mid, r.choice([None, "1.2.3"]), mk.encode(), 0, None, mk, None)
+            a = ("extended_response", mid, r.choice([None, "1.2.3", "1.3.6.1.4.1.1466.20037", gv.g_lookalike_oid(r, NOTICE_OID)]), mk.encode(), 0, None, mk, None)
         return self.api("s", a)
 
     def noise(self):
